@@ -25,6 +25,8 @@
 //	c04.type_of_import      wasm/module.go typeOfFunction                     the scan over the import section: counter initialisation, loop header, skip condition
 //	c05.byte_reg_rex        amd64/instr_encoding.go                            every condition under which an encoding forces a REX prefix for a byte register
 //	c07.closed_test         wasm/module_instance.go FailIfClosed + interpreter exit-code check   the tests by which running code notices a closed module
+//	c16.renumber_order      sys/fs.go FSContext.Renumber                      error returns and table/file mutations in source order
+//	c14.interp_memory_size  interpreter/interpreter.go callNativeFunc          what the memory.size operation pushes
 //	c09.compiled_fields     wazevo/engine.go compiledModule, interpreter compiledFunction   field names of what is shared by all instances
 package main
 
@@ -456,6 +458,47 @@ func main() {
 			die("callNativeFunc: no case operationKindBuiltinFunctionCheckExitCode")
 		}
 		add("c07.closed_test", strings.Join(parts, " ;; "))
+	}
+	{
+		fd := fn(*repo, "internal/sys/fs.go", "Renumber", "FSContext")
+		var ev []string
+		ast.Inspect(fd.Body, func(n ast.Node) bool {
+			switch x := n.(type) {
+			case *ast.ReturnStmt:
+				if len(x.Results) == 1 && strings.HasPrefix(src(x.Results[0]), "sys.E") {
+					ev = append(ev, "ret:"+strings.TrimPrefix(src(x.Results[0]), "sys."))
+				}
+			case *ast.CallExpr:
+				if sel, ok := x.Fun.(*ast.SelectorExpr); ok {
+					switch sel.Sel.Name {
+					case "Close", "Delete", "InsertAt", "Insert":
+						ev = append(ev, "mut:"+sel.Sel.Name)
+					}
+				}
+			}
+			return true
+		})
+		add("c16.renumber_order", strings.Join(ev, " ; "))
+	}
+	{
+		cn := fn(*repo, "internal/engine/interpreter/interpreter.go", "callNativeFunc", "callEngine")
+		var pushed []string
+		ast.Inspect(cn.Body, func(n ast.Node) bool {
+			cc, ok := n.(*ast.CaseClause)
+			if !ok || len(cc.List) != 1 || src(cc.List[0]) != "operationKindMemorySize" {
+				return true
+			}
+			for _, st := range cc.Body {
+				if es, ok := st.(*ast.ExprStmt); ok && strings.Contains(src(es), "pushValue") {
+					pushed = append(pushed, src(es))
+				}
+			}
+			return false
+		})
+		if len(pushed) != 1 {
+			die("callNativeFunc: %d pushes in case operationKindMemorySize", len(pushed))
+		}
+		add("c14.interp_memory_size", pushed[0])
 	}
 	add("c09.compiled_fields", "wazevo.compiledModule: "+structFields(*repo, "internal/engine/wazevo/engine.go", "compiledModule")+
 		" ;; interpreter.compiledFunction: "+structFields(*repo, "internal/engine/interpreter/interpreter.go", "compiledFunction"))
